@@ -17,3 +17,9 @@ Definition run_find (f : Z) (s t : ustr) : ustr * ustr :=
 Definition run_normalize (s : ustr) := (normalize_space code_ws s, normalize_space xml_space s).
 Definition run_compare (a b : ustr) := ([compare_cp a b; b2z (codepoint_equal a b)], [compare_cp a b; b2z (codepoint_equal a b)]).
 Definition run_xmlchar (c : Z) := ([b2z (is_xml_codepoint c)], [b2z (is_xml_codepoint c)]).
+
+(* ---- URI escaping (UriEscape.v): [code; specification] for fn 0 encode-for-uri, 1 iri-to-uri, 2 escape-html-uri ---- *)
+From EP Require Import C09.UriEscape.
+Definition run_uri (fn : Z) (s : list Z) : list Z * list Z :=
+  if fn =? 0 then (encode_for_uri_code s, encode_for_uri s)
+  else if fn =? 1 then (iri_to_uri_code s, iri_to_uri s) else (escape_html_uri_code s, escape_html_uri s).
